@@ -356,7 +356,9 @@ def havoc_for_loop(ex: Exec, names: set[str], st: ast.stmt | None = None, heap: 
     # allocation may have advanced
     na = ex.fresh("alloc", S.INT)
     ex.assume(na >= ex.alloc)
+    ex.epoch_prev[na.get_id()] = ex.alloc  # allocation pointer before this boundary
     ex.alloc = na
+    ex.epochs.append(na)
 
 
 _MUTATING = {"append", "extend", "insert", "pop", "remove", "clear", "update", "setdefault", "add", "discard",
